@@ -30,19 +30,22 @@ IsEdgeNodeFor(fn, en) ==
 
 \* a face's edges are its consecutive node pairs
 FaceEdgesAreConsecutivePairs(fn, en, fe) ==
-  \A i \in 1..Len(fn) :
+  /\ Len(fe) = Len(fn)                              \* one row per face
+  /\ \A i \in 1..Len(fn) :
      /\ Len(Present(fe[i])) = Len(Present(fn[i]))
      /\ \A e \in ToSet(Present(fe[i])) : e < Len(en)
      /\ {EdgeNodes(en, e) : e \in ToSet(Present(fe[i]))} = PairSet(fn[i])
 
 \* an edge lists exactly the faces that contain it
 EdgeFacesExactlyContaining(fn, en, ef) ==
-  \A e \in 0..(Len(en) - 1) :
+  /\ Len(ef) = Len(en)                              \* one row per edge: no phantom rows, none missing
+  /\ \A e \in 0..(Len(en) - 1) :
      ToSet(Present(ef[e + 1])) = {i - 1 : i \in {i \in 1..Len(fn) : EdgeNodes(en, e) \in PairSet(fn[i])}}
 
 \* face adjacency is symmetric and means sharing an edge
 FaceFaceSymmetricEdgeSharing(fn, ff) ==
-  \A i \in 1..Len(fn) :
+  /\ Len(ff) = Len(fn)
+  /\ \A i \in 1..Len(fn) :
      \* (a neighbour sharing two edges may be listed once per shared edge: the property speaks of the set)
      ToSet(Present(ff[i])) = {j - 1 : j \in {j \in 1..Len(fn) : j # i /\ PairSet(fn[i]) \cap PairSet(fn[j]) # {}}}
 
